@@ -12,7 +12,7 @@ def main():
         q.put(it)
     lock = threading.Lock()
     def worker(k):
-        vc = '/tmp/vcopy_%d' % k
+        vc = os.environ.get('VCOPY_PREFIX', '/tmp/vcopy_') + '%d' % k
         subprocess.run('rm -rf %s && rsync -a --exclude .git --exclude replay --exclude logs /verif/ %s/' % (vc, vc), shell=True, check=True)
         while True:
             try:
